@@ -147,7 +147,7 @@ int dec_exponent(double v)
 
 // Check an output that is not byte-identical to the host's: ISO shape for the
 // directive + padding/sign rules + accuracy of the printed digits.
-void check_shape(const Spec &sp, double x, const std::string &out)
+void check_shape(const Spec &sp, double x, const std::string &out, bool judge_accuracy = true)
 {
     const char lc = (char)tolower(sp.conv);
     const bool upper = sp.conv != lc;
@@ -252,6 +252,8 @@ void check_shape(const Spec &sp, double x, const std::string &out)
         tol = 0.5L * powl(10.0L, X - (Pg - 1));
     }
     long double err = fabsl(v - ax);
+    if (!judge_accuracy)
+        return;
     VP_CHECK(err <= tol + 4 * ulp_of(x), "fp_accuracy", "'%s' is %.3Lg away from the argument (allowed %.3Lg + 4 ulp)", out.c_str(), err, tol);
 }
 
@@ -317,8 +319,101 @@ void t_printf_fp(Src &s, Case &c)
     check_shape(sp, x, r.cap.out);
 }
 
+// Wide fields. Widths of 41..1100 with the precisions of the quantified domain (0..17): everything is judged.
+// Precisions of 41..1100 are outside the domain the accuracy clause is quantified over (and printf_impl.c documents
+// that it generates at most 64 fraction digits and fills with zeros): there the clauses that hold "with any
+// flags, width and precision" are judged — termination, memory safety, return == emitted, width — plus the ISO
+// shape (digit counts, point, exponent form, padding); the parsed-back value is not.
+void t_printf_fp_wide(Src &s, Case &c)
+{
+    Spec sp;
+    sp.conv = "fFeEgG"[s.weighted({4, 1, 4, 1, 4, 1})];
+    sp.flags = s.below(3) == 0 ? 0 : (unsigned)s.below(32);
+    auto big = [&]() -> int {
+        switch (s.weighted({3, 2, 2}))
+        {
+        case 0:
+            return (int)s.range(250, 262);
+        case 1:
+            return (int)s.range(41, 600);
+        default:
+            return (int)s.range(1000, 1100);
+        }
+    };
+    bool wide_prec = s.below(3) == 0;
+    sp.width_kind = wide_prec ? (int)s.weighted({2, 2, 2}) : 1 + (int)s.below(2);
+    sp.width = sp.width_kind ? big() : 0;
+    if (sp.width_kind == 2 && s.below(3) == 0)
+        sp.width = -sp.width;
+    if (wide_prec)
+    {
+        sp.prec_kind = 2 + (int)s.below(2);
+        sp.prec = big();
+    }
+    else
+    {
+        sp.prec_kind = (int)s.weighted({3, 1, 5, 2});
+        sp.prec = sp.prec_kind == 2 ? (int)s.range(0, 17) : sp.prec_kind == 3 ? (int)s.range(-3, 17) : 0;
+    }
+    double x = gen_double(s, c);
+    std::string fmt = "%";
+    static const char fl[] = {'-', '+', ' ', '#', '0'};
+    for (int i = 0; i < 5; i++)
+        if (sp.flags & (1u << i))
+            fmt += fl[i];
+    std::vector<Arg> args;
+    if (sp.width_kind == 1)
+        fmt += std::to_string(sp.width);
+    else if (sp.width_kind == 2)
+    {
+        fmt += "*";
+        args.push_back(Arg{pf::A_INT, sp.width});
+    }
+    if (sp.prec_kind == 1)
+        fmt += ".";
+    else if (sp.prec_kind == 2)
+        fmt += "." + std::to_string(sp.prec);
+    else if (sp.prec_kind == 3)
+    {
+        fmt += ".*";
+        args.push_back(Arg{pf::A_INT, sp.prec});
+    }
+    fmt += sp.conv;
+    Arg a{pf::A_DBL};
+    a.d = x;
+    args.push_back(a);
+    c.log("fmt=\"%s\" width=%d prec=%d x=%.17g (bits %016llx)", fmt.c_str(), sp.width, sp.prec, x, (unsigned long long)to_bits(x));
+    c.nontrivial = true;
+    c.label(wide_prec ? "wide_precision" : "wide_width");
+    pf::Result r;
+    pf::run_both(r, fmt.c_str(), args);
+    VP_CHECK(r.igris_ret == (int)r.cap.calls && r.cap.calls == (long)r.cap.out.size(), "ret_vs_emitted", "returned %d, callback calls %ld",
+             r.igris_ret, r.cap.calls);
+    if (!std::isfinite(x))
+        return;
+    if (r.cap.out == r.host)
+    {
+        c.label("equals_host");
+        return;
+    }
+    c.label("differs_from_host");
+    if (wide_prec && tolower(sp.conv) == 'g')
+    {
+        // %g chooses its style and digit count from the decimal exponent of the correctly rounded value; with hundreds of
+        // requested digits that choice hinges on digits far beyond the accuracy the statement quantifies over
+        // (e.g. %#.250g of 1e153): only the width is judged here
+        VP_CHECK((int)r.cap.out.size() >= sp.eff_width(), "fp_width", "output shorter than width %d", sp.eff_width());
+        return;
+    }
+    check_shape(sp, x, r.cap.out, !wide_prec);
+}
+
 } // namespace
 
+VP_TARGET("printf_fp_wide", t_printf_fp_wide,
+          "the same directives with widths 41..1100 (literal or *, negative * included) and precisions 0..17, or with precisions "
+          "41..1100: return == emitted, ASan-clean, width, ISO shape (f/e; for g the width only); parsed-back accuracy judged for precisions <= 17 only "
+          "(the quantified domain; beyond 64 fraction digits the implementation documents zero fill)");
 VP_TARGET("printf_fp", t_printf_fp,
           "%[flags][width|*][.prec|.*](f|F|e|E|g|G) with any flag subset, widths 0..40/*, precisions none/0..17 (tail "
           "to 40)/.*, doubles from boundary-biased classes (zero, +-0, denormals, DBL_MIN/MAX, powers of two and ten "
